@@ -3,6 +3,7 @@ package verifsim
 import (
 	"bytes"
 	"compress/gzip"
+	"compress/zlib"
 	"context"
 	"fmt"
 	"io"
@@ -415,6 +416,104 @@ func runC16RawHeader(r *simkit.Run) {
 	}
 }
 
+// runC16PreEncoded: the caller has compressed the body itself (gzip or zlib, standard library) and says so in the
+// Content-Encoding header; the request goes through the collector's client, which is configured with an algorithm of
+// its own (the same, another one, or none). The server (default settings: both codings enabled) decodes what the header
+// names: the handler reads exactly the caller's original bytes.
+func runC16PreEncoded(r *simkit.Run) {
+	tp := r.Tape
+	coding := []string{"gzip", "zlib", "deflate"}[tp.Draw(3)]
+	algo := c16Algos[tp.Draw(len(c16Algos))]
+	body := makeBody(tp, []string{"text", "random", "zeros"}[tp.Draw(3)], tp.Range(1, 20000))
+	var zb bytes.Buffer
+	if coding == "gzip" {
+		zw := gzip.NewWriter(&zb)
+		_, _ = zw.Write(body)
+		_ = zw.Close()
+	} else {
+		zw := zlib.NewWriter(&zb)
+		_, _ = zw.Write(body)
+		_ = zw.Close()
+	}
+	wire := zb.Bytes()
+	r.Sample = map[string]any{"mode": "pre-encoded", "content_encoding": coding, "client_compression": algo, "body_len": len(body)}
+	r.Logf("pre-encoded %s body %d bytes (%d on the wire) through a client with compression %q", coding, len(body), len(wire), algo)
+	r.Count("probe.request_already_carrying_content_encoding")
+	var hwg sync.WaitGroup
+	var got []byte
+	var readErr error
+	ran := false
+	handler := http.HandlerFunc(func(w http.ResponseWriter, req *http.Request) {
+		hwg.Add(1)
+		defer hwg.Done()
+		b, err := io.ReadAll(req.Body)
+		got, readErr, ran = b, err, true
+		if err != nil {
+			http.Error(w, err.Error(), http.StatusBadRequest)
+			return
+		}
+		w.WriteHeader(http.StatusOK)
+	})
+	sc := confighttp.NewDefaultServerConfig()
+	port, _ := nextPortPair()
+	for i := 0; i < 200 && !portsFree(port); i++ {
+		port, _ = nextPortPair()
+	}
+	sc.Endpoint = fmt.Sprintf("127.0.0.1:%d", port)
+	sc.TLSSetting = nil
+	srv, err := sc.ToServer(context.Background(), componenttest.NewNopHost(), componenttest.NewNopTelemetrySettings(), handler)
+	if err != nil {
+		panic(err)
+	}
+	srv.SetKeepAlivesEnabled(false)
+	ln, err := sc.ToListener(context.Background())
+	if err != nil {
+		r.Count("probe.infra_socket_unavailable")
+		time.Sleep(200 * time.Millisecond)
+		return
+	}
+	done := make(chan struct{})
+	go func() { _ = srv.Serve(ln); close(done) }()
+	cc := confighttp.NewDefaultClientConfig()
+	cc.Endpoint = "http://" + ln.Addr().String()
+	cc.Compression = configcompression.Type(algo)
+	client, err := cc.ToClient(context.Background(), componenttest.NewNopHost(), componenttest.NewNopTelemetrySettings())
+	if err != nil {
+		panic(err)
+	}
+	req, err := http.NewRequest(http.MethodPost, "http://"+ln.Addr().String()+"/", bytes.NewReader(wire))
+	if err != nil {
+		panic(err)
+	}
+	req.Header.Set("Content-Encoding", coding)
+	req.Close = true
+	resp, perr := client.Do(req)
+	status := 0
+	if perr == nil {
+		status = resp.StatusCode
+		_, _ = io.Copy(io.Discard, resp.Body)
+		_ = resp.Body.Close()
+	}
+	client.CloseIdleConnections()
+	_ = srv.Close()
+	<-done
+	hwg.Wait()
+	r.Events++
+	r.Nontrivial = true
+	if perr != nil {
+		if strings.Contains(perr.Error(), "cannot assign requested address") || strings.Contains(perr.Error(), "address already in use") {
+			r.Count("probe.infra_socket_unavailable")
+			return
+		}
+		r.Failf("content", "pre-encoded/client-error", "a %s-encoded request through a client with compression %q failed: %v", coding, algo, sanitize(perr, port))
+		return
+	}
+	r.Logf("status=%d handlerRan=%v got=%d bytes err=%v", status, ran, len(got), readErr)
+	if !ran || readErr != nil || status != http.StatusOK || !bytes.Equal(got, body) {
+		r.Failf("content", "pre-encoded/"+coding, "the caller sent %d bytes %s-encoded (Content-Encoding: %s) through a client with compression %q: handler ran=%v, read %d bytes (err=%v), status %d - it must read exactly the caller's bytes", len(body), coding, coding, algo, ran, len(got), readErr, status)
+	}
+}
+
 // runC16Replay: the transport re-sends a request by itself. Request A opens a keep-alive connection; request B (marked
 // replayable with an Idempotency-Key header) goes out on that connection, the handler reads its whole body and then
 // aborts the connection without an answer; net/http's transport then replays B on a fresh connection, rewinding the
@@ -545,6 +644,10 @@ func runC16(r *simkit.Run) {
 	}
 	if tp.Chance(1, 12) {
 		runC16RawHeader(r)
+		return
+	}
+	if tp.Chance(1, 12) {
+		runC16PreEncoded(r)
 		return
 	}
 	cfg := c16Cfg{}
